@@ -17,6 +17,10 @@ Inductive case :=
 (* validateSnapshotTransaction on a real node: members in processing order,
    each stored in persistent storage or only cached (with its Validate outcome) *)
 | CSnapTx (mainnet : bool) (s : ksnap) (ms : list member) (finalized : bool) (last : csnap) (obs : res unit)
+(* the records read back (key order) after operations were finalized and
+   recorded by the kernel's reloadConsensusState; the finalized consensus
+   transactions *)
+| CRecorded (records : list crec) (finalized : list N)
 (* a sequence of WriteConsensusSnapshot calls from the records [init];
    per call the observed outcome; [final] the records read back *)
 | CChain (init : list crec) (ops : list (cop * res unit)) (final : list crec).
@@ -64,6 +68,9 @@ Definition check (c : case) : bool :=
       let mf := snapshot_tx_rules mainnet s fin last false [] ms in
       if res_class_eqb mt mf then res_class_eqb mt obs
       else match obs with Panic => false | _ => true end
+  | CRecorded records finalized =>
+      chainb records
+      && forallb (fun t => existsb (fun r => match cr_txs r with [x] => (x =? t)%N | _ => false end) records) finalized
   | CRefs s tx last obs => res_class_eqb (validate_consensus_refs s tx last) obs
   | CChain init ops final =>
       match run_chain init ops with
